@@ -22,7 +22,7 @@ import numpy as np
 from scipy import sparse
 
 from vlib import graphs
-from vlib.cases import Case, Sub, call as _call, evaluate as _evaluate
+from vlib.cases import Case, Sub, evaluate as _evaluate
 from vlib.core import enc_csr, enc_list, enc_rat, ToolFailure, VERIF
 
 RULE = ('all undirected simple graphs n<=5 (thorough: n<=6) x {count_triangles seq/parallel, clustering coefficient, '
@@ -38,22 +38,46 @@ ASSUMPTIONS = ['scipy csr construction / + / .T / astype / tocoo / tocsr are the
                'OpenMP implements `+` reduction of a prange as: private copies initialised to 0, combined in an '
                'unspecified order (the model quantifies over all assignments and all combination trees)']
 os.environ.setdefault('OMP_WAIT_POLICY', 'passive')   # libgomp is loaded later, with the overlay's kernels
-TOL = 1e-9           # float64 tolerance (DESIGN section 8) for the clustering coefficient
+TOL = 1e-12          # clustering coefficient: one float64 division of two exactly known integers (DESIGN section 8
+                     # allows 1e-9; two distinct values of 3t/T with T <= 3e4 can be that close)
 THREADS = [1, 2, 3, 5, 8, 16]
 
 
 # ---------------------------------------------------------------------------------------------
 # helpers
 # ---------------------------------------------------------------------------------------------
+def _call(f):
+    """Run the implementation; *every* exception class becomes `err <Class>` (an exception on an in-scope input is
+    a failing input, on a refused input it is compared with the model's refusal)."""
+    try:
+        return f()
+    except Exception as e:   # noqa: BLE001 - MemoryError / OverflowError / AssertionError ... included on purpose
+        return 'err ' + type(e).__name__
+
+
 def _sym_pattern(a):
-    """Undirected simple graph of a square matrix: pattern of non-zeros read in both directions, no loops."""
+    """The undirected simple graph the functions are about: the non-zero entries of A + A^T (duplicates summed, so
+    cancelling weights are no edge), loops dropped."""
     b = sparse.csr_matrix(a).astype(float)
-    b.data = (b.data != 0).astype(float)
+    b = sparse.csr_matrix((b.data.copy(), b.indices.copy(), b.indptr.copy()), shape=b.shape)
+    b.sum_duplicates()
     b = sparse.csr_matrix(b + b.T)
     b.setdiag(0)
     b.eliminate_zeros()
     b.sort_indices()
+    b.data[:] = 1.0
     return b
+
+
+def _is_simple(a):
+    """symmetric, loop-free, positive after summing duplicates and dropping stored zeros"""
+    b = sparse.csr_matrix(a).astype(float)
+    b = sparse.csr_matrix((b.data.copy(), b.indices.copy(), b.indptr.copy()), shape=b.shape)
+    b.sum_duplicates()
+    b.eliminate_zeros()
+    if b.shape[0] != b.shape[1]:
+        return False
+    return abs(b - b.T).nnz == 0 and b.diagonal().sum() == 0 and (b.nnz == 0 or (b.data > 0).all())
 
 
 def _pat(a):
@@ -211,12 +235,18 @@ def report_crash(ctx, crash):
 # ---------------------------------------------------------------------------------------------
 # cases of one graph
 # ---------------------------------------------------------------------------------------------
+REFUSED = 'c11.spec_refused x'
+
+
 def cases_for_graph(ctx, a, rng, name='', simple=True, ks=None, funcs=('tri', 'cc', 'core', 'cliques', 'dag')):
     """Request lines for one square csr matrix.
-    simple=True : `a` is the adjacency of an undirected simple graph (symmetric, no loops, positive weights): every
-                  function is in the scope of the property, spec lines everywhere.
-    simple=False: directed / self-loop input: only the functions that symmetrise (count_triangles, count_cliques
-                  through get_dag drop the loops) get spec lines; the others are compared with the model only."""
+    simple=True : `a` represents an undirected simple graph (symmetric, loop-free, positive once duplicates are
+                  summed and stored zeros dropped — any storage: unsorted rows, stored zeros, duplicate entries, any
+                  value dtype): every function is in the scope of the property; spec lines everywhere, and an
+                  exception is a failing input (`c11.spec_refused`).
+    simple=False: directed / self-loop / negative or cancelling weights: run lines tie the model to the code; spec
+                  lines only where the named quantity is defined: triangles of `A + A^T != 0`; the clustering
+                  coefficient and the core numbers when the graph is loop-free (and, for cores, symmetric)."""
     from sknetwork.topology import count_triangles, count_cliques, get_core_decomposition, get_clustering_coefficient
     from sknetwork.path import get_dag
     n = a.shape[0]
@@ -224,11 +254,23 @@ def cases_for_graph(ctx, a, rng, name='', simple=True, ks=None, funcs=('tri', 'c
     s = _sym_pattern(a)
     sp = _pat(s)
     gd = _gdesc(a)
-    _progress({'f': 'all', 'graph': gd, 'name': name, 'funcs': list(funcs), 'ks': None if ks is None else list(ks)})
+    _progress({'f': 'all', 'graph': gd, 'name': name, 'funcs': list(funcs), 'ks': None if ks is None else list(ks),
+               'simple': simple})
     out = []
     nontriv = s.nnz > 0
     wedge = _has_wedge(s)
-    sym_input = simple or (abs(a - a.T).nnz == 0)
+    scope = 'simple' if simple else 'outside-simple'
+    if simple:
+        loopfree = symmetric = True
+    else:
+        c = sparse.csr_matrix(a).astype(float)
+        c = sparse.csr_matrix((c.data.copy(), c.indices.copy(), c.indptr.copy()), shape=c.shape)
+        c.sum_duplicates()
+        c.eliminate_zeros()
+        loopfree = not (c.diagonal() != 0).any()
+        pat = sparse.csr_matrix(((c.data != 0).astype(float), c.indices, c.indptr), shape=c.shape)
+        # symmetric pattern that is also the pattern of A + A^T (no cancellation between the two directions)
+        symmetric = abs(pat - pat.T).nnz == 0 and (pat.nnz - int((c.diagonal() != 0).sum())) == s.nnz
     if 'tri' in funcs:
         for par in (False, True):
             impl = _call(lambda: 'ok %d' % count_triangles(a, parallelize=par))
@@ -237,8 +279,10 @@ def cases_for_graph(ctx, a, rng, name='', simple=True, ks=None, funcs=('tri', 'c
             spec = None
             if impl.startswith('ok '):
                 spec = 'c11.spec_cliques %s 3 %s' % (sp, impl[3:])
-            out.append(Case(('tri', g, par), {'entry': 'count_triangles', 'parallelize': par}, run, impl, spec, wedge,
-                            {'f': 'count_triangles', 'graph': gd, 'parallelize': par, 'name': name}))
+            elif simple:
+                spec = REFUSED
+            out.append(Case(('tri', g, par), {'entry': 'count_triangles', 'parallelize': par, 'scope': scope}, run, impl,
+                            spec, wedge, {'f': 'count_triangles', 'graph': gd, 'parallelize': par, 'name': name}))
     if 'cc' in funcs:
         par = rng.random() < 0.5
 
@@ -250,50 +294,57 @@ def cases_for_graph(ctx, a, rng, name='', simple=True, ks=None, funcs=('tri', 'c
         impl = _call(f_cc)
         run = 'c11.cc %s %d' % (g, rng.choice([2, 3, 5]) if par else 0)
         spec = None
-        if impl.startswith('ok ') and simple:
+        if impl.startswith('ok ') and loopfree:
             spec = 'c11.spec_cc %s %s' % (sp, impl[3:])
-        out.append(Case(('cc', g, par), {'entry': 'get_clustering_coefficient', 'parallelize': par}, run, impl, spec,
-                        wedge, {'f': 'get_clustering_coefficient', 'graph': gd, 'parallelize': par, 'name': name},
+        elif simple:
+            spec = REFUSED
+        out.append(Case(('cc', g, par), {'entry': 'get_clustering_coefficient', 'parallelize': par, 'scope': scope},
+                        run, impl, spec, wedge,
+                        {'f': 'get_clustering_coefficient', 'graph': gd, 'parallelize': par, 'name': name},
                         canon='float'))
     if 'core' in funcs:
         impl = _call(lambda: 'ok ' + enc_list(get_core_decomposition(a)))
-        run = 'c11.core %d %d %s %s' % (a.shape[0], a.shape[1], enc_list(a.indptr), enc_list(a.indices))
+        run = 'c11.core %s' % g
         spec = None
-        if impl.startswith('ok ') and simple:
+        if impl.startswith('ok ') and loopfree and symmetric:
             spec = 'c11.spec_core %s %s' % (sp, impl[3:])
-        out.append(Case(('core', g), {'entry': 'get_core_decomposition'}, run, impl, spec, nontriv,
+        elif simple:
+            spec = REFUSED
+        out.append(Case(('core', g), {'entry': 'get_core_decomposition', 'scope': scope}, run, impl, spec, nontriv,
                         {'f': 'get_core_decomposition', 'graph': gd, 'name': name}))
-    if 'cliques' in funcs and sym_input:
-        gsq = '%d %s %s %s' % (n, enc_list(a.indptr), enc_list(a.indices), g.split(' ')[4])
+    if 'cliques' in funcs:
         for k in (ks if ks is not None else range(2, n + 2)):
             impl = _call(lambda: 'ok %d' % count_cliques(a, k))
             run = 'c11.cliques %s %d' % (g, k)
             spec = None
-            if impl.startswith('ok '):
+            if impl.startswith('ok ') and symmetric:
                 spec = 'c11.spec_cliques %s %d %s' % (sp, k, impl[3:])
-            out.append(Case(('cliques', g, k), {'entry': 'count_cliques', 'k': 'k>=2' if k >= 2 else 'k<2'}, run, impl,
-                            spec, wedge or k == 2 and nontriv,
+            elif simple and k >= 2 and not impl.startswith('ok '):
+                spec = REFUSED
+            out.append(Case(('cliques', g, k), {'entry': 'count_cliques', 'k': 'k>=2' if k >= 2 else 'k<2',
+                                                'scope': scope}, run, impl, spec, wedge or k == 2 and nontriv,
                             {'f': 'count_cliques', 'graph': gd, 'k': k, 'name': name}))
-    if 'dag' in funcs and sym_input:
+    if 'dag' in funcs:
         # the structure handed to the kernels: the real get_dag against the model's getDag, for the two orders used
+        # and for an order array with ties and negative entries (the `value < 0` branch of the loop)
         gsq = '%d %s %s %s' % (n, enc_list(a.indptr), enc_list(a.indices), g.split(' ')[4])
         orders = [np.arange(n)]
-        try:
-            orders.append(np.argsort(get_core_decomposition(a)))
-        except Exception:
-            pass
-        if len(orders) == 2:
+        core = _call(lambda: get_core_decomposition(a))
+        if not isinstance(core, str):
+            orders.append(np.argsort(core))
             out.append(Case(('argsort', g), {'entry': 'np.argsort', 'kind': 'contract'}, None, 'ok',
                             'c11.contract_perm %d %s' % (n, enc_list(orders[1])), nontriv,
                             {'f': 'get_dag', 'graph': gd, 'order': [int(x) for x in orders[1]], 'name': name}))
+        if n > 0:
+            orders.append(np.array([rng.randint(-2, max(1, n - 1)) for _ in range(n)]))
         for o in orders:
             def f_dag():
                 d = get_dag(a, order=o)
                 return 'ok %s %s' % (enc_list(d.indptr), enc_list(d.indices))
             impl = _call(f_dag)
             run = 'c11.dag %s %s' % (gsq, enc_list(o))
-            out.append(Case(('dag', g, tuple(int(x) for x in o)), {'entry': 'get_dag'}, run, impl, None, nontriv,
-                            {'f': 'get_dag', 'graph': gd, 'order': [int(x) for x in o], 'name': name}))
+            out.append(Case(('dag', g, tuple(int(x) for x in o)), {'entry': 'get_dag', 'scope': scope}, run, impl, None,
+                            nontriv, {'f': 'get_dag', 'graph': gd, 'order': [int(x) for x in o], 'name': name}))
     return out
 
 
